@@ -12,6 +12,8 @@ def supported(v):
 
 
 def unlock_allowed(c):
+    if not c.get("present", True):
+        return False
     if c["platform"] == "tcp":
         return False                       # no PIN is configured for the TCPSigner manager
     if c["pin_file"] == "invalid":
@@ -27,6 +29,8 @@ def needs_change(c):
 def serves(c):
     """-> True / False / None (None: the property does not decide, e.g. unreadable PIN file
     with a device that is already in signer mode)"""
+    if not c.get("present", True):
+        return False
     if c["platform"] != "tcp" and c["pin_file"] == "invalid":
         return False if c["mode"] != "signer" or c["onboarded"] != "yes" else None
     if c["onboarded"] != "yes":
